@@ -209,7 +209,13 @@ func stdInlinable(fn *ssa.Function) bool {
 	return stdInline[o.Pkg.Pkg.Path()+"."+o.Name()]
 }
 
+// noInline switches helper normalisation off (role table generation).
+var noInline bool
+
 func (p *Prog) inlineHelpers() {
+	if noInline {
+		return
+	}
 	il := &inliner{p: p, helper: map[*ssa.Function]bool{}, why: map[*ssa.Function]string{}, sites: map[*ssa.Function]int{},
 		touched: map[*ssa.Function]bool{}, reparent: map[*ssa.Function]*ssa.Function{}, marked: map[*ssa.BasicBlock]bool{}, clonedAlloc: map[*ssa.Alloc]bool{}}
 	// module functions (and closures) in which calls are replaced
